@@ -133,13 +133,11 @@ boost::optional<H5Group> BlockHDF5::findEntityGroup(const nix::Identity &ident) 
 }
 
 std::string BlockHDF5::resolveEntityId(const nix::Identity &ident) const {
-    if (!ident.id().empty()) {
-        return ident.id();
-    }
-
+    // a uuid-shaped string may be a NAME: ask findEntityGroup (link name first, then
+    // the id scan) before taking the string for an id
     boost::optional<H5Group> g = findEntityGroup(ident);
     if (!g) {
-        return "";
+        return ident.id();
     }
 
      std::string eid = "";
